@@ -28,10 +28,10 @@ theorem World.NoCache.logCall {w : World} (h : w.NoCache) (st sig args) : (w.log
   · exact h
   · exact h.log _
 
-theorem World.NoCache.subW {w : World} (h : w.NoCache) (raw o) : (subW raw o w).NoCache := by
+theorem World.NoCache.subW {w : World} (h : w.NoCache) (uc raw o) : (subW uc raw o w).NoCache := by
   unfold Liquer.subW; split
-  · exact h.storeMeta _ _
-  · exact h.storeMeta _ _
+  · exact h.metaIf _ _ _
+  · exact h.metaIf _ _ _
   · exact h
 
 theorem World.NoCache.admitW {w : World} (h : w.NoCache) (uc key st3) : (admitW uc key st3 w).NoCache := by
@@ -50,23 +50,23 @@ theorem World.NoCache.fileW {w : World} (h : w.NoCache) (uc key st2) : (fileW uc
     · exact h.store _
     · exact h.remove _
 
-theorem call_exact {env : Env} {n : Nat} (ih : ExactAt env n) (w1 : World) (st act raw sig x) (hN : w1.NoCache) :
-    Exact w1 (evalCall env n w1 st act raw sig x).1 (evalCall env n w1 st act raw sig x).2
+theorem call_exact {env : Env} {n : Nat} (ih : ExactAt env n) (w1 : World) (st act raw sig x) (uc : Bool) (hN : w1.NoCache) :
+    Exact w1 (evalCall env n w1 st act raw sig x uc).1 (evalCall env n w1 st act raw sig x uc).2
       (refCall env n st act raw sig x).1 (refCall env n st act raw sig x).2 := by
   unfold evalCall refCall
   split
   · exact ⟨hN, rfl, by simp⟩
-  · exact ⟨hN.storeMeta _ _, rfl, by simp⟩
+  · exact ⟨hN.metaIf _ _ _, rfl, by simp⟩
   · next args hpa =>
     split
     · exact ⟨hN.logCall _ _ _, rfl, by simp⟩
-    · exact ⟨(hN.logCall _ _ _).storeMeta _ _, rfl, by simp⟩
-    · exact ⟨(hN.logCall _ _ _).storeMeta _ _, rfl, by simp⟩
-    · exact ⟨(hN.logCall _ _ _).storeMeta _ _, rfl, by simp⟩
-    · exact ⟨(hN.logCall _ _ _).storeMeta _ _, rfl, by simp⟩
+    · exact ⟨(hN.logCall _ _ _).metaIf _ _ _, rfl, by simp⟩
+    · exact ⟨(hN.logCall _ _ _).metaIf _ _ _, rfl, by simp⟩
+    · exact ⟨(hN.logCall _ _ _).metaIf _ _ _, rfl, by simp⟩
+    · exact ⟨(hN.logCall _ _ _).metaIf _ _ _, rfl, by simp⟩
     · next y qtext hc =>
       obtain ⟨h1, h2, h3⟩ := ih.text (w1.logCall st sig args) qtext true (hN.logCall _ _ _)
-      refine ⟨h1.subW _ _, by simp only [h2], ?_⟩
+      refine ⟨h1.subW _ _ _, by simp only [h2], ?_⟩
       simp only [calls_subW, h3, World.calls_logCall, List.append_assoc]
 
 theorem link_exact {env : Env} {n : Nat} (ih : ExactAt env n) (w : World) (lq : Query) (parent : Str) (hN : w.NoCache) :
@@ -122,23 +122,23 @@ theorem act_exact_step {env : Env} {n : Nat} (ih : ExactAt env n) (w : World) (s
     Exact w (evalAction env (n+1) w st a raw parent extra uc).1 (evalAction env (n+1) w st a raw parent extra uc).2
       (refAction env (n+1) st a raw parent extra).1 (refAction env (n+1) st a raw parent extra).2 := by
   rw [evalAction_succ, refAction_succ]
-  have hN0 := hN.storeMeta raw (s "evaluation")
+  have hN0 := hN.metaIf uc raw (s "evaluation")
   split
   · exact ⟨hN0, rfl, by simp⟩
   · split
     · exact ⟨hN0, rfl, by simp⟩
     · split
-      · exact ⟨hN0.storeMeta _ _, rfl, by simp⟩
+      · exact ⟨hN0.metaIf _ _ _, rfl, by simp⟩
       · next sig hr =>
-        obtain ⟨h1, h2, h3⟩ := ih.params (w.storeMeta raw (s "evaluation")) a.params raw parent hN0
-        rcases hp : evalParams env n (w.storeMeta raw (s "evaluation")) a.params raw parent with ⟨w1, r⟩
+        obtain ⟨h1, h2, h3⟩ := ih.params (w.metaIf uc raw (s "evaluation")) a.params raw parent hN0
+        rcases hp : evalParams env n (w.metaIf uc raw (s "evaluation")) a.params raw parent with ⟨w1, r⟩
         rcases hr2 : refParams env n a.params raw parent with ⟨r', c1⟩
-        simp only [hp, hr2, World.calls_storeMeta] at h1 h2 h3
+        simp only [hp, hr2, World.calls_metaIf] at h1 h2 h3
         subst h2
         cases r with
         | inr o => exact ⟨h1, rfl, h3⟩
         | inl given =>
-          obtain ⟨g1, g2, g3⟩ := call_exact ih w1 st a raw sig (applyExtra extra given) h1
+          obtain ⟨g1, g2, g3⟩ := call_exact ih w1 st a raw sig (applyExtra extra given) uc h1
           exact ⟨g1, g2, by simp only; rw [g3, h3, List.append_assoc]⟩
 
 theorem text_exact_step {env : Env} {n : Nat} (ih : ExactAt env n) (w : World) (t : Str) (ug : Bool) (hN : w.NoCache) :
@@ -154,7 +154,7 @@ theorem post_exact {env : Env} {n : Nat} (ih : ExactAt env n) (w1 : World) (st p
   unfold evalPost refPost
   split
   · exact ⟨hN, rfl, by simp⟩
-  · exact ⟨(hN.storeMeta _ _).fileW _ _ _, rfl, by simp⟩
+  · exact ⟨(hN.metaIf _ _ _).fileW _ _ _, rfl, by simp⟩
   · next hd a =>
     obtain ⟨h1, h2, h3⟩ := ih.act w1 st a raw parent extra uc hN
     rw [h2]
@@ -172,7 +172,7 @@ theorem after_exact {env : Env} {n : Nat} (ih : ExactAt env n) (w1 : World) (o p
   · exact ⟨hN, rfl, by simp⟩
   · exact ⟨hN, rfl, by simp⟩
   · split
-    · exact ⟨hN.storeMeta _ _, rfl, by simp⟩
+    · exact ⟨hN.metaIf _ _ _, rfl, by simp⟩
     · exact post_exact ih w1 _ _ _ _ _ _ _ hN
 
 theorem pre_exact {env : Env} {n : Nat} (ih : ExactAt env n) (w : World) (q raw input uc) (hN : w.NoCache) :
@@ -182,7 +182,7 @@ theorem pre_exact {env : Env} {n : Nat} (ih : ExactAt env n) (w : World) (q raw 
   split
   · exact ⟨hN, rfl, by simp⟩
   · next p hp =>
-    obtain ⟨h1, h2, h3⟩ := ih.q (w.storeMeta raw (s "evaluating parent")) p _ .none input uc (hN.storeMeta _ _)
+    obtain ⟨h1, h2, h3⟩ := ih.q (w.metaIf uc raw (s "evaluating parent")) p _ .none input uc (hN.metaIf _ _ _)
     exact ⟨h1, h2, by simpa using h3⟩
 
 theorem q_exact_step {env : Env} {n : Nat} (ih : ExactAt env n) (w : World) (q : Query) (raw : Str) (extra : Extra)
